@@ -6,7 +6,7 @@ import vlib
 V = vlib.VERIF
 RULE = ("the input-space, history and schedule harnesses of C01-C06, C08, C10, C12-C18 are rebuilt with -fsanitize=address,undefined -fno-sanitize-recover=undefined and re-run over their small universes "
         "plus a menu of large instances (up to 400 vertices, hubs with 80 neighbours, long BFS/Dijkstra frontiers); every returned edge descriptor is dereferenced through the caller's own weight map after "
-        "the call returned; LeakSanitizer runs after every work unit; any report is attributed to the case being run (breadcrumb) and is a violation. thorough adds valgrind memcheck "
+        "the call returned; LeakSanitizer runs after every work unit; any report is attributed to the case being run (breadcrumb) and is a violation. Multi-threaded execution by the caller: two application threads call the sequential entry points concurrently on private graphs under ThreadSanitizer (hidden shared state = data race). thorough adds valgrind memcheck "
         "(uninitialised reads) over G(<=4) x U. evaluations = library calls executed under the sanitizers; distinct_nontrivial = distinct inputs with cycle space dimension >= 1 / non-empty histories")
 LARGE = "wheel:80,grid:10:10,cube:7,K:12,brick:8:10,subgrid:5:5,torus:6:6,Kb:7:7"
 LARGE_T = "wheel:200,grid:20:20,cube:8,K:20,brick:12:14,subgrid:8:8,Kb:12:12"
@@ -24,6 +24,7 @@ def builds():
         dict(name="fp_asan", src="fp_enum.cpp", flags=F, libs=()),
         dict(name="meta_asan", src="meta.cpp", flags=F),
         dict(name="sched_tbb_asan", src="sched_tbb.cpp", flags=F, shim_first=[V + "/shim/vtbb"], libs=("-lboost_timer", "-lpthread")),
+        dict(name="reentrant_tsan", src="reentrant.cpp", flags=["-std=c++14", "-O1", "-g", "-w", "-fsanitize=thread", "-DNDEBUG", "-D" + vlib.GUARD], shim_first=[V + "/shim/vtbb"], libs=("-lboost_timer", "-lpthread")),
         dict(name="sched_mpi_asan", src="sched_mpi.cpp", flags=F + ["-DVMPI_THREADS"], shim_first=[V + "/shim/vmpi", V + "/shim/vtbb"], libs=("-lboost_timer", "-lboost_serialization", "-lpthread")),
     ]
     return vlib.build_many(specs)
@@ -54,6 +55,8 @@ def run(tier):
         ("fp_asan", "fp / primes boxes", [["--gcd-box", 64, "--inv-pmax", 48, "--prime-max", 5000]], {}),
         ("meta_asan", "exact variants on large instances (real oneTBB)", [["--mode", "large", "--families", LARGE, "--patterns", "U,M3", "--few-images", "--workers", 8]], {}),
         ("sched_tbb_asan", "TBB entry points on the vtbb shim (explore mode), G(4) x A2", [["--n", 4, "--alpha", "A2", "--bound", 1, "--direct-bound", 1], ["--n", 4, "--alpha", "A2", "--bound", 0, "--direct-bound", -1, "--ks", "1,2"]], {}),
+        ("reentrant_tsan", "re-entrancy: two application threads call the six sequential entry points at the same time on private copies of the input (ThreadSanitizer; any report is a data race), G(0..4) x A2, G(5) x U, tie-heavy families",
+         [["--n", n, "--alpha", "A2"] for n in range(2, 5)] + [["--n", 5, "--alpha", "U"], ["--families", "grid:3:3,cube:3,K:6,wheel:6,petersen,Kb:3:3", "--alpha", "U"]], {"TSAN_OPTIONS": "halt_on_error=1 exitcode=66 report_signal_unsafe=0"}),
         ("sched_mpi_asan", "MPI entry points on the vmpi shim, G(3..4) x U, P in {2,3}", [["--n", 3, "--alpha", "U", "--P", "2,3", "--bound", 1], ["--n", 4, "--alpha", "U", "--P", "2,3", "--bound", 0]], {"ASAN_OPTIONS": vlib.SAN_ENV["ASAN_OPTIONS"] + ":alloc_dealloc_mismatch=0"}),
     ]
     if t:
@@ -69,7 +72,7 @@ def run(tier):
         for args in arglists:
             r = vlib.run_harness(b[name], list(args) + ["--seed", vlib.seed(), "--deadline-s", int(c.remaining(30))], env=e)
             # only memory-safety classes belong to C07; functional classes belong to the other properties
-            c.add_run(r, bound + " :: " + r["args"], {"crash", "hang", "exception", "leak", "sanitizer-report", "data-race"}, replay={"harness": name})
+            c.add_run(r, bound + " :: " + r["args"], {"crash", "hang", "exception", "leak", "sanitizer-report", "data-race", "concurrent-invalid-basis", "concurrent-return-mismatch", "concurrent-not-minimum", "concurrent-ratio"}, replay={"harness": name})
     if t:
         # uninitialised reads: valgrind over the plain exact / approx binaries on a small universe (single worker)
         pb = vlib.build_many([dict(name="exact", src="exact.cpp"), dict(name="approx", src="approx.cpp", flags=vlib.BASE_FLAGS + ["-fno-access-control"])])
